@@ -20,7 +20,9 @@
  * Bitmap set scripts ("S" arguments) are lists of 64-bit op words applied to a
  * fresh bitmap:  v (< 65536) Add v;  2^32|a<<16|b AddRange(a,b);
  * 2^33|v Remove v;  2^34|a<<16|b RemoveRange(a,b);
- * step<<36|2^35|a<<16|b  Add a, a+step, a+2 step, ... (< b). */
+ * step<<36|2^35|a<<16|b  Add a, a+step, a+2 step, ... (< b);
+ * leading words 2^37|start<<16|len: the bitmap starts as the Decode of a RUNS
+ * container with these runs (the only way to a RUNS container below 4096). */
 #include "core.h"
 #include "varintAdaptive.h"
 #include "varintBitmap.h"
@@ -543,8 +545,28 @@ static varintBitmap *bm_build(const vcase *c, int arg, uint8_t *ref) {
     size_t n;
     uint64_t *ops = arg_list(c, arg, &n);
     memset(ref, 0, BM_U);
-    varintBitmap *vb = varintBitmapCreate();
-    bm_apply(vb, ref, ops, n);
+    size_t nr = 0;
+    while (nr < n && (ops[nr] >> 37 & 1)) nr++;
+    varintBitmap *vb = NULL;
+    if (nr) {
+        uint8_t *buf = calloc(9 + 4 * nr, 1);
+        uint32_t card = 0, nr32 = (uint32_t)nr;
+        for (size_t i = 0; i < nr; i++) {
+            uint16_t st = (uint16_t)(ops[i] >> 16), len = (uint16_t)ops[i];
+            memcpy(buf + 9 + 4 * i, &st, 2);
+            memcpy(buf + 9 + 4 * i + 2, &len, 2);
+            card += len;
+            for (uint32_t v = st; v < (uint32_t)st + len && v < BM_U; v++) ref[v] = 1;
+        }
+        buf[0] = (uint8_t)VARINT_BITMAP_RUNS;
+        memcpy(buf + 1, &card, 4);
+        memcpy(buf + 5, &nr32, 4);
+        vb = varintBitmapDecode(buf, 9 + 4 * nr);
+        free(buf);
+        if (!vb) memset(ref, 0, BM_U);
+    }
+    if (!vb) vb = varintBitmapCreate();
+    bm_apply(vb, ref, ops + nr, n - nr);
     free(ops);
     return vb;
 }
